@@ -27,11 +27,11 @@ Consumed == R!Consumed
 RefPre == [cont |-> [a |-> <<10, 11>>, b |-> <<20, 21>>], fobj |-> << <<10, 5>>, <<11, 6>>, <<20, 7>>, <<21, 8>> >>,
            heap |-> << <<5, <<0, 0, 0, 0>> >>, <<6, <<0, 0>> >>, <<7, <<1, 1, 1, 1>> >>, <<8, <<2, 2>> >> >>]
 RefIadd == [id |-> "ref", op |-> [op |-> "iop", c |-> "a", kind |-> "add", v |-> 1], pre |-> RefPre,
-            post |-> [RefPre EXCEPT !.heap = << <<5, <<1, 2, 3, 4>> >>, <<6, <<5, 6>> >>, <<7, <<1, 1, 1, 1>> >>, <<8, <<2, 2>> >> >>]]
+            post |-> [RefPre EXCEPT !.heap = << <<5, <<1024, 2048, 3072, 4096>> >>, <<6, <<5120, 6144>> >>, <<7, <<1, 1, 1, 1>> >>, <<8, <<2, 2>> >> >>]]
 RefLink == [id |-> "ref", op |-> [op |-> "link", a |-> "a", b |-> "b"], pre |-> RefPre,
             post |-> [RefPre EXCEPT !.fobj = << <<10, 7>>, <<11, 8>>, <<20, 7>>, <<21, 8>> >>]]
 ASSUME Failing(RefIadd) = {}
-ASSUME Failing([RefIadd EXCEPT !.post.heap[2] = <<6, <<6, 5>> >>]) = {"ContentConforms"}
+ASSUME Failing([RefIadd EXCEPT !.post.heap[2] = <<6, <<6144, 5120>> >>]) = {"ContentConforms"}
 ASSUME Failing(RefLink) = {}
 \* a link that re-binds only the first field
 ASSUME Failing([RefLink EXCEPT !.post.fobj = << <<10, 7>>, <<11, 6>>, <<20, 7>>, <<21, 8>> >>]) = {"ArraySharingConforms", "ContentConforms"}
